@@ -934,11 +934,14 @@ fn execute_inner(h: &History) -> Result<HistoryOutcome, String> {
                     let policy = project.policy(Some(&g.module), Some(&g.validator), &path);
                     let address = project.address(Some(&g.module), Some(&g.validator), None, &path, false);
                     let mainnet = project.address(Some(&g.module), Some(&g.validator), None, &path, true);
+                    // with a delegation part: a testnet stake-key address (header 0xe0 ‖ 28 bytes)
+                    let stake = format!("e0{}", "5a".repeat(28));
+                    let delegated = project.address(Some(&g.module), Some(&g.validator), Some(&stake), &path, false);
                     (
                         policy.map(|p| p.to_string()).map_err(|e| format!("{e}")),
-                        match (address, mainnet) {
-                            (Ok(a), Ok(m)) => Ok(format!("{}|{}", hex::encode(a.to_vec()), hex::encode(m.to_vec()))),
-                            (Err(e), _) | (_, Err(e)) => Err(format!("{e}")),
+                        match (address, mainnet, delegated) {
+                            (Ok(a), Ok(m), Ok(d)) => Ok(format!("{}|{}|{}", hex::encode(a.to_vec()), hex::encode(m.to_vec()), hex::encode(d.to_vec()))),
+                            (Err(e), _, _) | (_, Err(e), _) | (_, _, Err(e)) => Err(format!("{e}")),
                         },
                     )
                 });
@@ -964,7 +967,8 @@ fn execute_inner(h: &History) -> Result<HistoryOutcome, String> {
                                 (Ok(p), Ok(a)) => {
                                     // script address without delegation: header 0x70 (testnet) / 0x71
                                     // (mainnet) ‖ hash
-                                    if p != &hash || a != &format!("70{hash}|71{hash}") {
+                                    // with a key delegation part: header 0x10 ‖ script hash ‖ key hash
+                                    if p != &hash || a != &format!("70{hash}|71{hash}|10{hash}{}", "5a".repeat(28)) {
                                         out.violations.push((
                                             "address-hash-mismatch".into(),
                                             format!("{}.{}: policy {p}, address {a}, published hash {hash}", g.module, g.validator),
